@@ -107,7 +107,9 @@ Lemma allsub_lstep c s l aux s' : allsub s -> lstep c l aux s = Some s' -> allsu
 Proof.
   intros H. unfold lstep.
   destruct (l_pc (lp s l)) as [| r | r | | |] eqn:Epc.
-  - destruct (cur_op (lp s l)) as [[k | r |]|]; [| | |discriminate].
+  - destruct (cur_op (lp s l)) as [[k | r | |]|]; [| | | |discriminate].
+    4: { intros E; apply some_eq in E; subst s'. eapply allsub_keeps; [exact H|].
+         eapply kN_trans; [| apply kN_advance]. kpt. }
     + destruct (is_free (gmutex s)); [|discriminate].
       intros E; apply some_eq in E; subst s'.
       eapply allsub_keeps; [| apply kN_advance].
@@ -121,7 +123,7 @@ Proof.
       * intros E; apply some_eq in E; subst s'. eapply allsub_keeps; [exact H|].
         eapply kN_trans; [| apply kN_advance]. kpt.
     + destruct (l_cb (lp s l)).
-      * destruct (l_active (lp s l) =? 0); [| destruct (l_pending (lp s l))];
+      * destruct ((l_active (lp s l) =? 0) || l_stop (lp s l)); [| destruct (l_pending (lp s l))];
           intros E; apply some_eq in E; subst s'; (eapply allsub_keeps; [exact H|]).
         -- eapply kN_trans; [| apply kN_advance]. kpt.
         -- kpt.
